@@ -38,9 +38,6 @@ def main():
     pids = args or ["C18", "C19", "C20", "C15"]
     bad = 0
     for pid in pids:
-        r = subprocess.run(["cargo", "build", "--release", "--offline", "-p", PKG[pid]], cwd=ROOT, capture_output=True, text=True)
-        if r.returncode != 0:
-            print(f"HARNESS-ERROR build of {PKG[pid]} failed"); return 2
         runs = runs_override or DEFAULT_RUNS[pid]
         seed = 777
         a = digests(pid, runs, 16, seed)
